@@ -571,3 +571,224 @@ pub fn c17_shutdown(cx: &mut Ctx) {
     // results of transactions that straddled the signal are byte-exact
     data::relay_check(cx, "C17", false);
 }
+
+fn db_rows(msgs: &[Msg]) -> BTreeSet<Vec<String>> {
+    // SHOW DATABASES: name, host, port, database, force_user, pool_size, min_pool_size, reserve_pool, pool_mode, max_connections, [current_connections, paused, disabled]
+    rows_of(msgs).into_iter().map(|r| r.into_iter().take(10).collect()).collect()
+}
+
+fn cfg_rows(msgs: &[Msg]) -> BTreeSet<Vec<String>> {
+    rows_of(msgs).into_iter().map(|r| r.into_iter().take(2).collect()).collect()
+}
+
+/// C14 — live reload is safe.
+pub fn c14_reload(cx: &mut Ctx) {
+    let h = cx.h;
+    let variant = cx.param_str("variant");
+    let valid = cx.param_bool("valid");
+    let (begin_seq, _begin_us) = match crate::world::fired_at("reload_begin") {
+        Some(x) => x,
+        None => return,
+    };
+    let (done_seq, done_us) = match crate::world::fired_at("reloaded") {
+        Some(x) => x,
+        None => return,
+    };
+    cx.probe("c14_reload_happened");
+    let class = if valid { "valid" } else { "invalid" };
+    // ---- admin console before / after ----
+    let mut show: Vec<(u64, String, &StepRec)> = Vec::new();
+    for a in h.clients.values().filter(|c| c.role == "admin" && c.id <= 501) {
+        for s in &a.steps {
+            if s.op == "send" && step_ok(s) {
+                let sql = proto::split_all(&s.sent).0.first().and_then(|m| proto::Reader::new(&m.body).cstr()).unwrap_or_default();
+                show.push((s.done_seq, sql, s));
+            }
+        }
+    }
+    let before_db = show.iter().filter(|(q, sql, _)| sql == "SHOW DATABASES" && *q < begin_seq).map(|(_, _, s)| db_rows(&s.msgs)).last();
+    let after_db = show.iter().filter(|(q, sql, _)| sql == "SHOW DATABASES" && *q > done_seq).map(|(_, _, s)| db_rows(&s.msgs)).next();
+    let before_cfg = show.iter().filter(|(q, sql, _)| sql == "SHOW CONFIG" && *q < begin_seq).map(|(_, _, s)| cfg_rows(&s.msgs)).last();
+    let after_cfg = show.iter().filter(|(q, sql, _)| sql == "SHOW CONFIG" && *q > done_seq).map(|(_, _, s)| cfg_rows(&s.msgs)).next();
+    if let (Some(b), Some(a)) = (&before_db, &after_db) {
+        cx.probe("c14_console_compared");
+        let same = a == b;
+        match variant.as_str() {
+            "add_pool" => {
+                if !a.iter().any(|r| r.first().map(|n| n.starts_with("db3_")).unwrap_or(false)) {
+                    cx.v("C14", "new_pool_missing", "C14/valid/added_pool_not_listed", done_seq, "SHOW DATABASES after the reload does not list the added pool db3".into());
+                }
+            }
+            "remove_pool" => {
+                if a.iter().any(|r| r.first().map(|n| n.starts_with("db2_")).unwrap_or(false)) {
+                    cx.v("C14", "removed_pool_still_listed", "C14/valid/removed_pool_still_listed", done_seq, "SHOW DATABASES after the reload still lists the removed pool db2".into());
+                }
+            }
+            "change_servers" => {
+                if !a.iter().any(|r| r.get(1).map(|n| n == "pg-db2-alt").unwrap_or(false)) {
+                    cx.v("C14", "changed_pool_not_applied", "C14/valid/changed_servers_not_listed", done_seq, "SHOW DATABASES after the reload does not list the new server of db2".into());
+                }
+            }
+            "add_pool_server_down" | "change_general" => {}
+            _ => {
+                if !same {
+                    let diff: Vec<&Vec<String>> = a.symmetric_difference(b).collect();
+                    cx.v("C14", "databases_changed", &format!("C14/{}/{}/show_databases_changed", class, if valid { "unchanged" } else { "rejected_file" }), done_seq, format!("SHOW DATABASES differs across a reload that must change nothing ({}): {:?}", variant, diff));
+                }
+            }
+        }
+    }
+    if let (Some(b), Some(a)) = (&before_cfg, &after_cfg) {
+        let must_be_same = !valid || variant == "unchanged";
+        if must_be_same && a != b {
+            let diff: Vec<&Vec<String>> = a.symmetric_difference(b).collect();
+            cx.v("C14", "config_changed", &format!("C14/{}/show_config_changed", class), done_seq, format!("SHOW CONFIG differs across a reload that must change nothing ({}): {:?}", variant, diff));
+        }
+        if variant == "change_general" && !a.iter().any(|r| r.first().map(|k| k == "ban_time").unwrap_or(false) && r.get(1).map(|v| v == "77").unwrap_or(false)) {
+            cx.v("C14", "config_not_applied", "C14/valid/general_setting_not_applied", done_seq, "SHOW CONFIG after the reload does not show ban_time = 77".into());
+        }
+    }
+    // ---- an invalid (or unchanged) file never makes PgCat touch servers that only the new file names ----
+    if !valid || variant == "unchanged" {
+        for c in &h.backend_conns {
+            if c.host.starts_with("pg-db3-") || c.host.starts_with("pg-db2-alt") {
+                cx.v("C14", "invalid_config_applied", &format!("C14/{}/connected_to_server_of_rejected_config", class), c.opened_seq, format!("PgCat opened a connection to {} which only appears in the {} file", c.host, variant));
+            }
+        }
+    }
+    // ---- connections of the unchanged pool survive the reload ----
+    for c in &h.backend_conns {
+        if !c.host.starts_with("pg-db-") || c.kind != "session" {
+            continue;
+        }
+        if let Some(cs) = c.closed_seq {
+            if cs > begin_seq && c.closed_us.unwrap_or(0) < done_us + 100_000 && (c.close_how == "eof" || c.close_how == "terminate" || c.close_how == "reset") {
+                cx.v("C14", "unchanged_pool_connection_closed", &format!("C14/{}/unchanged_pool_connection_closed", class), cs, format!("server connection pid {} of the unchanged pool db was closed by PgCat during the reload ({})", c.pid, c.close_how));
+            }
+        }
+    }
+    // ---- clients ----
+    let db3_client = cx.param_u64("db3_client", 0) as u32;
+    let db2_late = cx.param_u64("db2_late_client", 0) as u32;
+    for c in h.clients.values() {
+        if !is_data_client(c) {
+            continue;
+        }
+        let removed_pool = valid && variant == "remove_pool" && c.database == "db2";
+        if c.database == "db" || (c.database == "db2" && !removed_pool) {
+            if c.id == db2_late && !(c.database == "db2") {
+                continue;
+            }
+            if c.auth_result != "ok" {
+                cx.v("C14", "client_refused", &format!("C14/{}/client_of_existing_pool_refused", class), c.connect_seq, format!("client {} of pool {} could not log in: {}", c.id, c.database, c.auth_result));
+                continue;
+            }
+            let mut idle = true;
+            for s in &c.steps {
+                if s.op != "send" && s.op != "copyin" {
+                    continue;
+                }
+                let failed = !step_ok(s) || pooler_error(&s.msgs).is_some();
+                if failed {
+                    let phase = if s.start_seq < begin_seq { "before" } else if s.start_seq > done_seq { "after" } else { "during" };
+                    cx.v("C14", "transaction_broken", &format!("C14/{}/{}/transaction_failed_{}_reload/pool={}", class, variant_class(&variant), phase, c.database), s.done_seq, format!("client {} (pool {}) step {} failed around the reload: {:?} {:?}", c.id, c.database, s.idx, s.outcome, pooler_error(&s.msgs)));
+                    break;
+                }
+                // where did it run?
+                let hosts = hosts_of_step(&cx.ix, h, s);
+                for hn in &hosts {
+                    let ok_prefix = if c.database == "db" { "pg-db-" } else { "pg-db2-" };
+                    if !hn.starts_with(ok_prefix) {
+                        cx.v("C14", "wrong_pool_servers", &format!("C14/{}/statement_on_another_pools_server", class), s.done_seq, format!("client {} of pool {} had step {} executed on {}", c.id, c.database, s.idx, hn));
+                    }
+                }
+                if valid && variant == "change_servers" && c.database == "db2" && idle {
+                    if s.start_seq > done_seq && hosts.iter().any(|x| x == "pg-db2-p:5432") {
+                        cx.v("C14", "old_definition_used", "C14/valid/transaction_started_after_reload_on_old_servers", s.done_seq, format!("client {} started a transaction (step {}) after the reload was acknowledged and it ran on the old server pg-db2-p", c.id, s.idx));
+                    }
+                    if s.start_seq > done_seq && hosts.iter().any(|x| x == "pg-db2-alt:5432") {
+                        cx.probe("c14_new_definition_used");
+                    }
+                    if s.done_seq < begin_seq && hosts.iter().any(|x| x == "pg-db2-alt:5432") {
+                        cx.v("C14", "new_definition_too_early", "C14/valid/new_servers_used_before_reload", s.done_seq, format!("client {} step {} ran on pg-db2-alt before any reload was requested", c.id, s.idx));
+                    }
+                }
+                if s.start_seq < begin_seq && s.done_seq > done_seq {
+                    cx.probe("c14_transaction_straddled_reload");
+                }
+                idle = matches!(s.outcome, StepOutcome::Ready(b'I'));
+            }
+        } else if removed_pool {
+            // transactions started after the acknowledgement must be refused, and nothing of them reaches any server
+            let mut idle = true;
+            if c.connect_seq > done_seq {
+                if c.auth_result == "ok" {
+                    cx.v("C14", "removed_pool_reachable", "C14/valid/login_to_removed_pool", c.connect_seq, format!("client {} logged in to the removed pool db2 after the reload", c.id));
+                } else {
+                    cx.probe("c14_removed_pool_refused");
+                }
+            }
+            for s in &c.steps {
+                if s.op != "send" {
+                    continue;
+                }
+                if idle && s.start_seq > done_seq {
+                    let hosts = hosts_of_step(&cx.ix, h, s);
+                    if !hosts.is_empty() {
+                        cx.v("C14", "removed_pool_served", "C14/valid/transaction_on_removed_pool_served", s.done_seq, format!("client {} started a transaction (step {}) on the removed pool db2 after the reload and it was executed on {:?}", c.id, s.idx, hosts));
+                    } else {
+                        cx.probe("c14_removed_pool_refused");
+                    }
+                } else if s.start_seq < begin_seq && s.done_seq < begin_seq && (!step_ok(s) || pooler_error(&s.msgs).is_some()) {
+                    cx.v("C14", "transaction_broken", "C14/valid/remove_pool/transaction_failed_before_reload", s.done_seq, format!("client {} step {} failed before the reload", c.id, s.idx));
+                }
+                for hn in hosts_of_step(&cx.ix, h, s) {
+                    if !hn.starts_with("pg-db2-") {
+                        cx.v("C14", "wrong_pool_servers", "C14/valid/removed_pool_client_on_another_pools_server", s.done_seq, format!("client {} of removed pool db2 had step {} executed on {}", c.id, s.idx, hn));
+                    }
+                }
+                idle = matches!(s.outcome, StepOutcome::Ready(b'I'));
+            }
+        } else if c.database == "db3" && c.id == db3_client {
+            let expect_ok = valid && (variant == "add_pool" || variant == "add_pool_server_down");
+            if expect_ok {
+                if c.auth_result != "ok" {
+                    let fp = if variant == "add_pool_server_down" { "C14/valid/added_pool_unreachable_after_server_was_down_at_reload" } else { "C14/valid/added_pool_unreachable" };
+                    cx.v("C14", "new_pool_unreachable", fp, c.connect_seq, format!("client {} connecting to the added pool db3 after the reload was acknowledged got: {}", c.id, c.auth_result));
+                } else {
+                    for s in c.steps.iter().filter(|s| s.op == "send") {
+                        let hosts = hosts_of_step(&cx.ix, h, s);
+                        if !step_ok(s) || pooler_error(&s.msgs).is_some() || hosts.iter().any(|x| x != "pg-db3-p:5432") || hosts.is_empty() {
+                            cx.v("C14", "new_pool_unreachable", "C14/valid/added_pool_not_served", s.done_seq, format!("client {} of the added pool db3: step {} ended {:?} on {:?}", c.id, s.idx, s.outcome, hosts));
+                        } else {
+                            cx.probe("c14_added_pool_served");
+                        }
+                    }
+                }
+            } else if c.auth_result == "ok" {
+                cx.v("C14", "invalid_config_applied", &format!("C14/{}/login_to_pool_of_rejected_config", class), c.connect_seq, format!("client {} logged in to db3, which only exists in the {} file", c.id, variant));
+            } else {
+                cx.probe("c14_pool_of_rejected_config_refused");
+            }
+        }
+    }
+}
+
+fn variant_class(v: &str) -> &str {
+    v
+}
+
+pub fn hosts_of_step(ix: &Index, h: &History, s: &StepRec) -> Vec<String> {
+    let mut v = Vec::new();
+    for t in &s.tags {
+        if let Some(us) = ix.units_by_tag.get(t) {
+            for (ci, _) in us {
+                let hn = h.backend_conns[*ci].host.clone();
+                if !v.contains(&hn) {
+                    v.push(hn);
+                }
+            }
+        }
+    }
+    v
+}
